@@ -34,12 +34,16 @@ func genScenario(t *rapid.T, kind string) LeaseScenario {
 		s.Renewals = rapid.IntRange(0, 3).Draw(t, "renewals")
 	case "unlockrace":
 		s.After = rapid.Bool().Draw(t, "after")
+	case "handoff":
+		s.PhasePct = rapid.SampledFrom([]int{5, 50, 80, 90, 95, 99, 101, 110}).Draw(t, "phase")
+		s.Renewals = rapid.IntRange(0, 2).Draw(t, "renewals")
+		s.Same = rapid.Bool().Draw(t, "same")
 	}
 	return s
 }
 
 func recordLease(s LeaseScenario, info LeaseInfo) {
-	nt := (s.Kind == "hold" && info.InjectedFailures > 0) || s.Kind == "death" || (s.Kind == "unlockrace" && info.HeldInFlight)
+	nt := (s.Kind == "hold" && info.InjectedFailures > 0) || s.Kind == "death" || s.Kind == "handoff" || (s.Kind == "unlockrace" && info.HeldInFlight)
 	cl := []string{"scenario:" + s.Kind, fmt.Sprintf("lease_ms:%d", s.LeaseMs)}
 	if info.Retried > 0 {
 		cl = append(cl, "confirmed_only_after_retry")
@@ -84,7 +88,7 @@ func TestC05Rapid(t *testing.T) {
 		var batch []LeaseScenario
 		races := 0
 		for i := 0; i < n; i++ {
-			kind := rapid.SampledFrom([]string{"hold", "hold", "hold", "death", "death", "unlockrace"}).Draw(rt, "kind")
+			kind := rapid.SampledFrom([]string{"hold", "hold", "hold", "death", "death", "unlockrace", "handoff", "handoff"}).Draw(rt, "kind")
 			if kind == "unlockrace" {
 				if races >= 3 { // every such scenario parks one worker of the timer pool for a while
 					kind = "hold"
@@ -117,6 +121,13 @@ func TestC05EveryK(t *testing.T) {
 	for _, after := range []bool{false, true} {
 		batch = append(batch, LeaseScenario{Kind: "unlockrace", LeaseMs: lease, After: after})
 	}
+	for _, ph := range []int{90, 99, 105} {
+		for _, same := range []bool{false, true} {
+			batch = append(batch, LeaseScenario{Kind: "handoff", LeaseMs: lease, PhasePct: ph, Same: same})
+		}
+	}
+	runBatch(t, "TestC05EveryK", batch)
+	batch = nil
 	for _, ph := range []int{0, 25, 50, 75, 99} {
 		batch = append(batch, LeaseScenario{Kind: "death", LeaseMs: lease, PhasePct: ph, Renewals: 1})
 	}
